@@ -78,9 +78,22 @@ def _all_returns_tail(body: List[ast.stmt]) -> bool:
             # `try: … except E: …; return a` followed by more: the rest runs only when nothing was caught, i.e. it is the else arm
             if not _has_return(s.body) and not _has_return(s.orelse) and all(_definitely_returns(h.body) for h in s.handlers) and _all_returns_tail(body[i + 1:]):
                 return True
+            # `try: if a: return x … except E: pass` followed by nothing but `return <trivial>`: that return cannot raise, so it may be repeated
+            # at the end of the try body and of every handler
+            if _trivial_return_only(body[i + 1:]) and not s.orelse and _all_returns_tail(list(s.body) + body[i + 1:]) \
+                    and all(_all_returns_tail(list(h.body) + body[i + 1:]) for h in s.handlers):
+                return True
         if _has_return([s]):
             return False            # return inside loop / try / match / a with that is not the last statement
     return True
+
+
+def _trivial_return_only(stmts) -> bool:
+    """exactly one statement, `return` of a constant, a name or an empty list / dict / tuple (nothing that can raise)"""
+    if len(stmts) != 1 or not isinstance(stmts[0], ast.Return):
+        return False
+    v = stmts[0].value
+    return v is None or isinstance(v, (ast.Constant, ast.Name)) or (isinstance(v, (ast.List, ast.Tuple)) and not v.elts) or (isinstance(v, ast.Dict) and not v.keys)
 
 
 def _has_return(stmts) -> bool:
@@ -150,6 +163,17 @@ def _tailify(body: List[ast.stmt], k) -> Tuple[List[ast.stmt], bool]:
                 off = off or o_
                 nh = ast.ExceptHandler(type=h.type, name=h.name, body=hb or [ast.Pass()])
                 hs.append(ast.copy_location(nh, h))
+            if rest and _has_return(s.body):
+                # the trivial-return form: the closing return is repeated where the try body and the handlers fall off their end
+                b, o1 = _tailify(list(s.body) + clone(rest), k)
+                hs = []
+                for h in s.handlers:
+                    hb, _o = _tailify(list(h.body) + clone(rest), k)
+                    hs.append(ast.copy_location(ast.ExceptHandler(type=h.type, name=h.name, body=hb or [ast.Pass()]), h))
+                new = ast.Try(body=b or [ast.Pass()], handlers=hs, orelse=[], finalbody=[])
+                ast.copy_location(new, s)
+                out.append(new)
+                return out, False
             if rest:
                 b = list(s.body)
                 o, o_ = _tailify(list(s.orelse) + rest, k)
@@ -220,6 +244,39 @@ class _Beta(ast.NodeTransformer):
         if isinstance(f, ast.Lambda) and not node.keywords and len(node.args) == len(f.args.args) and all(_beta_arg(x) for x in node.args):
             names = {p.arg: a for p, a in zip(f.args.args, node.args)}
             return ast.copy_location(_Subst(names, {}).visit(clone(f.body)), node)
+        return node
+
+
+class _FoldBool(ast.NodeTransformer):
+    """what substituting a constant / a lambda for a parameter makes decidable: `None is None`, `<lambda> is None`, and the and / or around it"""
+
+    def visit_Compare(self, node):
+        self.generic_visit(node)
+        if len(node.ops) == 1 and isinstance(node.ops[0], (ast.Is, ast.IsNot)) and isinstance(node.left, ast.Constant) and isinstance(node.comparators[0], ast.Constant) \
+                and (node.left.value is None or node.left.value is Ellipsis) and node.comparators[0].value is None:
+            same = node.left.value is None
+            return ast.copy_location(ast.Constant(value=same if isinstance(node.ops[0], ast.Is) else not same), node)
+        return node
+
+    def visit_BoolOp(self, node):
+        self.generic_visit(node)
+        is_or = isinstance(node.op, ast.Or)
+        vals = []
+        for v in node.values:
+            if isinstance(v, ast.Constant) and isinstance(v.value, bool):
+                if v.value == is_or:
+                    # `… or True` / `… and False`: decided here, provided nothing in front of it remains to be evaluated
+                    if not vals:
+                        return ast.copy_location(ast.Constant(value=v.value), node)
+                    vals.append(v)
+                    break
+                continue                 # `False or x` -> x, `True and x` -> x
+            vals.append(v)
+        if not vals:
+            return ast.copy_location(ast.Constant(value=not is_or), node)
+        if len(vals) == 1:
+            return vals[0]
+        node.values = vals
         return node
 
 
@@ -393,7 +450,22 @@ def _inline_at(h, call: ast.Call, stmt: ast.stmt, caller, is_method: bool) -> Op
         arg_names |= _names_in(a)
     renames = {}
     live = _Liveness(caller, stmt)
+    # `T = helper(…)` where the helper always returns one and the same local R, and T is bound nowhere else in the caller: R *is* T
+    # (the inlined body computes straight into T; no `T = R` copy is left behind)
+    result_local = None
+    if isinstance(stmt, ast.Assign) and len(stmt.targets) == 1 and isinstance(stmt.targets[0], ast.Name):
+        tname = stmt.targets[0].id
+        rets = [n.value for n in ast.walk(tmp) if isinstance(n, ast.Return)]
+        stores = sum(1 for n in ast.walk(caller) if isinstance(n, ast.Name) and n.id == tname and isinstance(n.ctx, (ast.Store, ast.Del)))
+        caller_params = {a.arg for a in ast.walk(caller) if isinstance(a, ast.arg)}
+        if rets and all(isinstance(v, ast.Name) for v in rets) and len({v.id for v in rets}) == 1 and rets[0].id in helper_locals \
+                and tname not in helper_assigned and tname not in params and tname not in arg_names and stores == 1 and tname not in caller_params \
+                and not any(isinstance(n, ast.Name) and n.id == tname for n in ast.walk(tmp)):
+            result_local = rets[0].id
+            renames[result_local] = tname
     for v in sorted(helper_locals):
+        if v == result_local:
+            continue
         # a name the caller also uses is only in the way when the caller still reads its own value after this statement
         if (v in caller_names and v not in target_names and live.after(v)) or v in arg_names:
             renames[v] = f'{v}__{h.name.strip("_")}'
@@ -417,8 +489,14 @@ def _inline_at(h, call: ast.Call, stmt: ast.stmt, caller, is_method: bool) -> Op
             uses = [n for n in ast.walk(tmp) if isinstance(n, ast.Name) and n.id == p]
             called = [n for n in ast.walk(tmp) if isinstance(n, ast.Call) and isinstance(n.func, ast.Name) and n.func.id == p
                       and not n.keywords and len(n.args) == len(la.args) and all(_beta_arg(x) for x in n.args)]
-            if not plain or p in helper_assigned or free & (helper_assigned | set(params)) or len(uses) != len(called) or any(isinstance(n, (ast.Lambda,) + _COMPS) for n in ast.walk(a.body)):
+            # `p is None` / `p is not None` (an optional callback): known once a lambda is handed in
+            tested = [n for n in ast.walk(tmp) if isinstance(n, ast.Compare) and isinstance(n.left, ast.Name) and n.left.id == p and len(n.ops) == 1
+                      and isinstance(n.ops[0], (ast.Is, ast.IsNot)) and isinstance(n.comparators[0], ast.Constant) and n.comparators[0].value is None]
+            if not plain or p in helper_assigned or free & (helper_assigned | set(params)) or len(uses) != len(called) + len(tested) \
+                    or any(isinstance(n, (ast.Lambda,) + _COMPS) for n in ast.walk(a.body)):
                 return None
+            for n in tested:
+                n.left = ast.copy_location(ast.Constant(value=Ellipsis), n.left)        # marks "not None"; folded below
             subst[p] = a
             lambdas.add(p)
             continue
@@ -438,6 +516,8 @@ def _inline_at(h, call: ast.Call, stmt: ast.stmt, caller, is_method: bool) -> Op
     body = [tr.visit(s) for s in body]
     if lambdas:
         body = [_Beta().visit(s) for s in body]
+    if lambdas or any(isinstance(a, ast.Constant) for _p, a in order):
+        body = [_FoldBool().visit(s) for s in body]
 
     if isinstance(stmt, ast.Return):
         def k(value, at):
